@@ -155,13 +155,13 @@ def run_check(prop, tier, seed, count=None):
                             h['runs'] += 1
                 continue
             c = v.get('cls')
-            if seen_cls.get(c, 0) >= 2:
+            if seen_cls.get(c, 0) >= 1 or len(violations_out) >= 4:
                 seen_cls[c] = seen_cls.get(c, 0) + 1
                 continue
             seen_cls[c] = seen_cls.get(c, 0) + 1
             recs = r.get('tapes') or {}
             best, bres = runner.shrink(r['_world'], r['seed'], r['_params'], recs, c,
-                                       budget_s=float(os.environ.get('VERIF_SHRINK_S', '45')))
+                                       budget_s=float(os.environ.get('VERIF_SHRINK_S', '25')))
             rep = bres if bres is not None else r
             vv = v
             if bres is not None:
@@ -183,8 +183,8 @@ def run_check(prop, tier, seed, count=None):
         print('VIOLATION property=%s replay=%s' % (prop, path))
         print('  class=%s %s' % (vv.get('cls'), vv.get('msg')))
     for c, n in seen_cls.items():
-        if n > 2:
-            print('  (%d further violations of class %s not minimised)' % (n - 2, c))
+        if n > 1:
+            print('  (%d further violations of class %s not minimised)' % (n - 1, c))
     cov = ev['coverage']
     print('%s %s: %d runs (%d ok, %d harness errors), %d distinct non-trivial, %.0f runs/h, %.1f simulated s, '
           '%d violations, %d known findings, wall %.1fs' % (
